@@ -645,9 +645,13 @@ def _lowi_fresh(n):
     if op == "shr":
         c = a[1]
         if c % 8 == 0 and c > 8:
+            for cc in range(8, c - 8, 8):       # bottom-up, so that the chain is not one deep recursion
+                lowi(n_shr(a[0], cc))
             return _divmod_fresh(n_shr(a[0], c - 8), 256)[0]
         return _divmod_fresh(a[0], 1 << c)[0]
     if op == "byte":
+        for cc in range(8, 8 * a[1], 8):
+            lowi(n_shr(a[0], cc))
         return _divmod_fresh(n_shr(a[0], 8 * a[1]), 256)[1]
     if op == "and" and is_const(a[1]) and a[1].args[0] > 0 and a[1].args[0] & (a[1].args[0] + 1) == 0:
         return _divmod_fresh(a[0], a[1].args[0] + 1)[1]
